@@ -27,7 +27,8 @@ META = {
             "every observed outcome must be one the exhaustively explored extracted model admits.",
     "note": "Trusted: Coq kernel; translator; extraction + OCaml explorer; macro shim + dsched (sequentially "
             "consistent interleavings; the driver adds one scheduling point after finish_released in futex.cpp to open "
-            "the plain-memory window of wake_all); DepositBox/IdAllocator are modelled abstractly (their own property is "
+            "the plain-memory window of wake_all; a second build of the same driver additionally yields after every "
+            "unlock of futex.cpp and poisons freed memory, to see await_suspend touching a destroyed awaitable); DepositBox/IdAllocator are modelled abstractly (their own property is "
             "C14); Task/Future-awaitable/Cancellable are covered by monitors on the real code and a small model of the "
             "take race only.  Liveness is proved in its safety form (no reachable quiescent state has a stranded or "
             "leaked wait); the step to 'eventually resumed under a fair scheduler' is not mechanised.",
